@@ -88,9 +88,15 @@ def const_attr(repo, attr):
         return None
     vals = set()
     for f, recv, v, st in ws:
-        if v is None or not isinstance(v, ast.Constant):
+        if v is None:
             return None
-        vals.add((type(v.value).__name__, v.value))
+        try:
+            lit = ast.literal_eval(v)
+        except Exception:
+            return None
+        if isinstance(lit, (list, dict, set, tuple)):
+            return None
+        vals.add((type(lit).__name__, lit))
     if len(vals) == 1:
         return ("const", next(iter(vals))[1])
     return None
